@@ -141,7 +141,17 @@ func cmdCheck(args []string) int {
 	var deferredUnits []string
 	for _, k := range sortedKeys(p.contracts.Funcs) {
 		fc := p.contracts.Funcs[k]
-		if fc.View != "" {
+		if fc.View != "" && fc.Trusted != "" {
+			continue // an assumed view (listed in the trusted base)
+		}
+		if fc.View != "" && fc.Inline {
+			continue // executed in place at its call sites: nothing assumed, nothing to verify separately
+		}
+		if fc.View != "" && len(fc.Props) == 0 {
+			// a view is either declared `trusted` (assumed, listed) or carries `props` and is verified
+			// against the body like a main contract; anything else would be a silent assumption
+			u := &Unit{Name: fc.Key, Kind: "func", Props: []string{*prop}, VC: newVC(fc.Key), Err: "view " + fc.Key + " is neither `trusted` nor verified (no props)"}
+			units = append(units, u)
 			continue
 		}
 		if !hasProp(fc.Props, *prop) || !onlyMatch(k, *only) {
